@@ -662,12 +662,14 @@ class StorageCommitment(MessageDispatcherSCP):
                     seq.append(ref)
                 report_ds.FailedSOPSequence = pydicom.Sequence(seq)
 
-            report.data_set = dsutils.encode(report_ds,
-                                             ctx.supported_ts.is_implicit_VR,
-                                             ctx.supported_ts.is_little_endian)
-
             with asce.ae.request_association(remote_ae) as assoc:
-                assoc.send(report, ctx.id)
+                # report is sent on the context that was negotiated on this new
+                # association, in its transfer syntax (not the ones of the
+                # association N-ACTION request came on)
+                pc_id, ts = assoc.sop_classes_as_scu[ctx.sop_class]
+                report.data_set = dsutils.encode(report_ds, ts.is_implicit_VR,
+                                                 ts.is_little_endian)
+                assoc.send(report, pc_id)
                 assoc.receive()  # Get response. Current implementation ignores it
 
 
